@@ -66,6 +66,8 @@ def main():
         for f in cf.as_completed(futs):
             try:
                 results.append(f.result())
+                rr = results[-1]
+                print(f'  done    {rr.group.name:40s} {rr.status:9s} {rr.backend or "-":7s} {rr.solver_s:7.1f}s', flush=True)
             except Exception as e:
                 r = vdriver.Result(futs[f])
                 r.detail = 'driver exception: ' + traceback.format_exc()
